@@ -94,20 +94,49 @@ CORPUS = [
 ]
 
 
+def wrap(c):
+    """a witness on a bare shape becomes the single field of a dataclass (C05 is about dataclass deserialization)"""
+    ty, d, e, origin = c
+    if isinstance(ty, list) and ty[0] == "dc":
+        return c
+    return (["dc", "XW", {}, [[{"name": "a", "alias": None, "default": None, "init": True, "omit": False}, ty]]], ["map", "dict", [[["s", "a"], d]]], "mixin", origin)
+
+
 def run(ctx):
     ctx.rule = RULE
     ctx.lean_check("Mashu.Props.C05", THEOREMS, extra_targets=["Mashu.Dispatch"])
     decode.run_decode(ctx, [(t, d, e, "corpus") for t, d, e in CORPUS], judge)
+    for mode, cs in decode.fixed_corpus(ctx).items():
+        decode.run_decode(ctx, [wrap(c) for c in cs], judge, annot=mode)
     n, depth = (3000, 3) if ctx.tier == "quick" else (50000, 4)
     done = 0
     while done < n and ctx.time_left() > 30:
         k = min(3000, n - done)
         decode.run_decode(ctx, gen_cases(ctx, k, depth), judge)
         done += k
+    # the same stream with every annotation wrapped in Annotated / NewType / TypeAliasType
+    for mode in (True, "newtype", "typealias"):
+        if ctx.time_left() > 30:
+            decode.run_decode(ctx, gen_cases(ctx, 400 if ctx.tier == "quick" else 5000, depth), judge, annot=mode)
+    # inherited members over class graphs (shared with C07): MissingField must name the first
+    # constructor parameter without default that has no key — judged from dataclasses.fields alone
+    from . import c07_mro
+
+    ng = 150 if ctx.tier == "quick" else 2000
+    done = 0
+    while done < ng and ctx.time_left() > 20:
+        k = min(150, ng - done)
+        c07_mro.run_graphs(ctx, [c07_mro.gen_graph(ctx.rng) for _ in range(k)])
+        done += k
     ctx.assumptions += ["non-mutation of the input is checked on the implementation only (vacuous in a pure model)"]
 
 
 def replay(ctx, body):
+    if "graph" in body["case"]:
+        from . import c07_mro
+
+        c07_mro.run_graphs(ctx, [body["case"]["graph"]])
+        return ctx.finish()
     c = body["case"]
-    decode.run_decode(ctx, [(c["ty"], c["input"], c.get("entry", "mixin"), "replay")], judge)
+    decode.run_decode(ctx, [(c["ty"], c["input"], c.get("entry", "mixin"), "replay")], judge, annot=c.get("annot", False))
     return ctx.finish()
